@@ -13,6 +13,78 @@ use rand_xoshiro::Xoshiro256Plus;
 #[cfg(feature = "serde")]
 use serde_crate::{Deserialize, Serialize};
 
+/// Verification hooks (`--cfg linfa_verif` only): the parallel loops over observations report
+/// which row was written by which thread (`kmeans.par`), the sequential consumers of their
+/// outputs report the order in which they read the rows (`kmeans.red`).
+#[cfg(linfa_verif)]
+pub(crate) mod verif {
+    use linfa::verif_hook as vh;
+
+    /// One instrumented loop over the rows of a 1-d output array.
+    #[derive(Clone, Copy)]
+    pub(crate) struct Loop {
+        kind: &'static str,
+        site: &'static str,
+        base: usize,
+        step: isize,
+    }
+
+    impl Loop {
+        /// `base`/`stride` (in elements) / `elem_size` describe the array whose cells identify rows
+        pub(crate) fn begin<T>(
+            kind: &'static str,
+            site: &'static str,
+            base: *const T,
+            stride: isize,
+            n: usize,
+        ) -> Loop {
+            if vh::enabled() {
+                vh::emit(&format!(
+                    "\"ev\":\"{}\",\"ph\":\"begin\",\"site\":\"{}\",\"n\":{}",
+                    kind, site, n
+                ));
+            }
+            let step = stride * (std::mem::size_of::<T>().max(1) as isize);
+            Loop {
+                kind,
+                site,
+                base: base as usize,
+                step: if step == 0 { 1 } else { step },
+            }
+        }
+
+        /// the cell `elem` (a reference into the output array) is being processed
+        pub(crate) fn row<T>(&self, elem: *const T) {
+            if vh::enabled() {
+                let row = (elem as usize as isize - self.base as isize) / self.step;
+                vh::emit(&format!(
+                    "\"ev\":\"{}\",\"ph\":\"row\",\"site\":\"{}\",\"row\":{}",
+                    self.kind, self.site, row
+                ));
+            }
+        }
+
+        pub(crate) fn end(&self) {
+            if vh::enabled() {
+                vh::emit(&format!(
+                    "\"ev\":\"{}\",\"ph\":\"end\",\"site\":\"{}\"",
+                    self.kind, self.site
+                ));
+            }
+        }
+    }
+
+    /// a whole-array sequential reduction (`dists.sum()` and the like) is about to run
+    pub(crate) fn sum(site: &'static str, n: usize) {
+        if vh::enabled() {
+            vh::emit(&format!(
+                "\"ev\":\"kmeans.red\",\"ph\":\"sum\",\"site\":\"{}\",\"n\":{}",
+                site, n
+            ));
+        }
+    }
+}
+
 #[cfg_attr(
     feature = "serde",
     derive(Serialize, Deserialize),
@@ -275,6 +347,8 @@ impl<F: Float, R: Rng + Clone, DA: Data<Elem = F>, T, D: Distance<F>>
                 &mut memberships,
                 &mut dists,
             );
+            #[cfg(linfa_verif)]
+            verif::sum("fit", dists.len());
             let inertia = dists.sum();
 
             // We keep the centroids which minimize the inertia (defined as the sum of
@@ -291,6 +365,8 @@ impl<F: Float, R: Rng + Clone, DA: Data<Elem = F>, T, D: Distance<F>>
             Some(centroids) => {
                 // count the members of the run whose centroids are returned (not of the last run)
                 let mut cluster_count = Array1::zeros(self.n_clusters());
+                #[cfg(linfa_verif)]
+                verif::sum("cluster_count", best_memberships.len());
                 best_memberships
                     .iter()
                     .for_each(|&c| cluster_count[c] += F::one());
@@ -348,6 +424,8 @@ impl<'a, F: Float + Debug, R: Rng + Clone, DA: Data<Elem = F>, T, D: 'a + Distan
                                 &mut rng,
                             );
                             update_min_dists(self.dist_fn(), &centroids, &observations, &mut dists);
+                            #[cfg(linfa_verif)]
+                            verif::sum("fit_with_init", dists.len());
                             (centroids, dists.sum())
                         })
                         .min_by(|(_, d1), (_, d2)| {
@@ -384,6 +462,8 @@ impl<'a, F: Float + Debug, R: Rng + Clone, DA: Data<Elem = F>, T, D: 'a + Distan
             &model.centroids,
             &mut model.cluster_count,
         );
+        #[cfg(linfa_verif)]
+        verif::sum("fit_with", dists.len());
         model.inertia = dists.sum() / F::cast(n_samples);
         let dist = self
             .dist_fn()
@@ -476,13 +556,25 @@ fn compute_centroids<F: Float>(
     let mut counts: Array1<usize> = Array1::ones(n_clusters);
     let mut centroids = Array2::zeros((n_clusters, observations.ncols()));
 
+    #[cfg(linfa_verif)]
+    let vloop = verif::Loop::begin(
+        "kmeans.red",
+        "centroids",
+        observations.as_ptr(),
+        observations.strides()[0],
+        observations.nrows(),
+    );
     Zip::from(observations.rows())
         .and(cluster_memberships)
         .for_each(|observation, &cluster_membership| {
+            #[cfg(linfa_verif)]
+            vloop.row(observation.as_ptr());
             let mut centroid = centroids.row_mut(cluster_membership);
             centroid += &observation;
             counts[cluster_membership] += 1;
         });
+    #[cfg(linfa_verif)]
+    vloop.end();
     // m_k-means: Treat the old centroid like another point in the cluster
     centroids += old_centroids;
 
@@ -502,10 +594,20 @@ fn compute_centroids_incremental<F: Float>(
     counts: &mut ArrayBase<impl DataMut<Elem = F>, Ix1>,
 ) -> Array2<F> {
     let mut centroids = old_centroids.to_owned();
+    #[cfg(linfa_verif)]
+    let vloop = verif::Loop::begin(
+        "kmeans.red",
+        "centroids_incr",
+        observations.as_ptr(),
+        observations.strides()[0],
+        observations.nrows(),
+    );
     // We can parallelize this
     Zip::from(observations.rows())
         .and(cluster_memberships)
         .for_each(|obs, &c| {
+            #[cfg(linfa_verif)]
+            vloop.row(obs.as_ptr());
             // Computes centroids[c] += (observation - centroids[c]) / counts[c]
             // If cluster is empty for this batch, then this wouldn't even be called, so no
             // chance of getting NaN.
@@ -514,6 +616,8 @@ fn compute_centroids_incremental<F: Float>(
             let mut centroid = centroids.row_mut(c);
             centroid += &shift;
         });
+    #[cfg(linfa_verif)]
+    vloop.end();
     centroids
 }
 
@@ -524,11 +628,23 @@ pub(crate) fn update_cluster_memberships<F: Float, D: Distance<F>>(
     observations: &ArrayBase<impl Data<Elem = F> + Sync, Ix2>,
     cluster_memberships: &mut ArrayBase<impl DataMut<Elem = usize>, Ix1>,
 ) {
+    #[cfg(linfa_verif)]
+    let vloop = verif::Loop::begin(
+        "kmeans.par",
+        "memberships",
+        cluster_memberships.as_ptr(),
+        cluster_memberships.strides()[0],
+        cluster_memberships.len(),
+    );
     Zip::from(observations.axis_iter(Axis(0)))
         .and(cluster_memberships)
         .par_for_each(|observation, cluster_membership| {
+            #[cfg(linfa_verif)]
+            vloop.row(cluster_membership as *const usize);
             *cluster_membership = closest_centroid(dist_fn, centroids, &observation).0
         });
+    #[cfg(linfa_verif)]
+    vloop.end();
 }
 
 // Updates `dists` with the distance of each observation from its closest centroid.
@@ -538,11 +654,23 @@ pub(crate) fn update_min_dists<F: Float, D: Distance<F>>(
     observations: &ArrayBase<impl Data<Elem = F> + Sync, Ix2>,
     dists: &mut ArrayBase<impl DataMut<Elem = F>, Ix1>,
 ) {
+    #[cfg(linfa_verif)]
+    let vloop = verif::Loop::begin(
+        "kmeans.par",
+        "min_dists",
+        dists.as_ptr(),
+        dists.strides()[0],
+        dists.len(),
+    );
     Zip::from(observations.axis_iter(Axis(0)))
         .and(dists)
         .par_for_each(|observation, dist| {
+            #[cfg(linfa_verif)]
+            vloop.row(dist as *const F);
             *dist = closest_centroid(dist_fn, centroids, &observation).1
         });
+    #[cfg(linfa_verif)]
+    vloop.end();
 }
 
 // Efficient combination of `update_cluster_memberships` and `update_min_dists`.
@@ -553,14 +681,26 @@ pub(crate) fn update_memberships_and_dists<F: Float, D: Distance<F>>(
     cluster_memberships: &mut ArrayBase<impl DataMut<Elem = usize>, Ix1>,
     dists: &mut ArrayBase<impl DataMut<Elem = F>, Ix1>,
 ) {
+    #[cfg(linfa_verif)]
+    let vloop = verif::Loop::begin(
+        "kmeans.par",
+        "memberships_dists",
+        dists.as_ptr(),
+        dists.strides()[0],
+        dists.len(),
+    );
     Zip::from(observations.axis_iter(Axis(0)))
         .and(cluster_memberships)
         .and(dists)
         .par_for_each(|observation, cluster_membership, dist| {
+            #[cfg(linfa_verif)]
+            vloop.row(dist as *const F);
             let (m, d) = closest_centroid(dist_fn, centroids, &observation);
             *cluster_membership = m;
             *dist = d;
         });
+    #[cfg(linfa_verif)]
+    vloop.end();
 }
 
 /// Given a matrix of centroids with shape (n_centroids, n_features) and an observation,
